@@ -16,7 +16,7 @@ if [ "$mode" = seeds ]; then
     git -C $wt apply $d/patch.diff 2>/dev/null || { echo "$id | does not apply" >> $res; continue; }
     out=$(run $prop); rc=$?
     v=$(echo "$out" | grep -c '^VIOLATION'); nf=$(echo "$out" | grep '^VIOLATION' | grep -c 'no-failing-input-found')
-    first=$(echo "$out" | grep -E '^(VIOLATION|UNDECIDED|CHECKER)' | head -1 | sed -E 's/.*obligation=([^ ]+).*/\1/' | cut -c1-110)
+    first=$(echo "$out" | grep -E '^(VIOLATION|UNDECIDED|CHECKER)' | head -1 | sed -E 's/.*obligation=//; s/ no-failing-input-found$//; s/ \((undecided|unsupported)\).*//' | cut -c1-140)
     echo "$id | exit=$rc | violations=$v (without input: $nf) | $first" >> $res
   done
 else
